@@ -179,17 +179,28 @@ func c09R3(h H) {
 				return
 			}
 			n++
-			step, isInd := unitStep(ia.Index)
-			// initial value len(middleware)-1
-			initOK := false
-			if ph, ok := ia.Index.(*ssa.Phi); ok {
-				for _, e := range ph.Edges {
-					if b, ok := e.(*ssa.BinOp); ok && b.Op == token.SUB {
-						if one, ok := constInt(b.Y); ok && one == 1 {
-							if l, ok := b.X.(*ssa.Call); ok && calleeName(&l.Call) == "builtin.len" && readsField(l.Call.Args[0], "middleware") {
-								initOK = true
-							}
+			// the index is φ+k with φ stepping by -1 from len(middleware)+j, and j+k == -1 (first index used: len-1);
+			// `for i := len-1; i >= 0; i--  m[i]` and `for n := len; n > 0; n--  m[n-1]` are the same walk
+			affine := func(v ssa.Value) (ssa.Value, int64) {
+				if b, ok := v.(*ssa.BinOp); ok && (b.Op == token.SUB || b.Op == token.ADD) {
+					if c, ok := constInt(b.Y); ok {
+						if b.Op == token.SUB {
+							c = -c
 						}
+						return b.X, c
+					}
+				}
+				return v, 0
+			}
+			base, k := affine(ia.Index)
+			step, isInd := int64(0), false
+			initOK := false
+			if ph, ok := base.(*ssa.Phi); ok {
+				step, isInd = unitStep(ph)
+				for _, e := range ph.Edges {
+					l0, j := affine(e)
+					if l, ok := l0.(*ssa.Call); ok && calleeName(&l.Call) == "builtin.len" && readsField(l.Call.Args[0], "middleware") && j+k == -1 {
+						initOK = true
 					}
 				}
 			}
